@@ -334,6 +334,12 @@ func CompileWarrior(r io.Reader, config SimulatorConfig) (WarriorData, error) {
 			return WarriorData{}, fmt.Errorf("symbol scanner: %s", err)
 		}
 		if forSeen {
+			// the predefined names may be used in a count
+			for name, val := range map[string]Address{"CORESIZE": config.CoreSize, "MAXLENGTH": config.Length, "MAXPROCESSES": config.Processes, "MINDISTANCE": config.Distance} {
+				if _, ok := symbols[name]; !ok {
+					symbols[name] = []token{{tokNumber, fmt.Sprintf("%d", val)}}
+				}
+			}
 			expandedTokens, err := ForExpand(newBufTokenReader(tokens), symbols)
 			if err != nil {
 				return WarriorData{}, fmt.Errorf("for: %s", err)
